@@ -37,7 +37,7 @@ CLAIMED = {
  "C04": ("Scripted raw-uTP peer as sender (independent codec) against one real endpoint: in-window data in arbitrary order / duplicated / overlapping, tiny receive buffers, slow readers, mid-stream FIN, hostile sequence numbers; oracles over every datagram the endpoint emits: ack_nr is the in-order prefix, SACK bits only for packets it holds, advertised window never exceeds free buffer space and never shrinks below data already invited, bytes handed to read equal the in-order stream exactly once.",
          TRUST + "The scripted peer and its receive-buffer model are the reference. Known findings F13 (window ignores a partially read message) and F14 (SACK bits shifted after a mid-stream FIN).",
          SIM + ": scripted-peer histories, wire oracle against a reference receiver model", "DESIGN.md §3 C04"),
- "C05": ("Scripted raw-uTP peer as receiver producing seeded ACK/window histories (growing, shrinking, zero, re-opening, withheld, stale, selective); oracle at every first transmission of a sequence number: outstanding bytes <= window most recently advertised, nothing new into a zero window, <= 2 segments + acked bytes before the first loss event, one segment after an RTO until new data is acknowledged.",
+ "C05": ("Scripted raw-uTP peer as receiver producing seeded ACK/window histories (growing, shrinking, zero, re-opening, withheld, stale, selective; carried by bare state packets or by copies of the peer's own data packet); oracle at every first transmission of a sequence number: outstanding bytes <= window most recently advertised, nothing new into a zero window, <= 2 segments + acked bytes before the first loss event, one segment after an RTO until new data is acknowledged.",
          TRUST + "Loss-recovery polls are exempt as the property states. Known finding F15 (the retransmission-timer path transmits a never-sent segment regardless of the window).",
          SIM + ": scripted-peer ACK/window histories, wire oracle on first transmissions", "DESIGN.md §3 C05"),
  "C06": ("Scripted receiver with loss, withheld / duplicate / selective / stale ACKs, plus passive clauses on lossy duplex runs; oracles: timeout retransmission not before the minimum RTO after the timer can last have been (re)started, doubling gaps within 200 ms..60 s, fast retransmit at the third duplicate ACK or SACK evidence (outside timeout recovery), retransmission cap ends the connection with an application-visible error, nothing acknowledged is re-emitted, stable bytes per sequence number (only a never-acknowledged probe is re-cut, with a consistent prefix).",
